@@ -90,7 +90,7 @@ class Sub:
 
     def __init__(self, name, oracle, strategy=None, enumerate=None, n=None, shards=None,
                  nontrivial=None, classes=None, render=None, essential=(), exhaustive=False,
-                 budget_s=None, validate=None, text_keys=()):
+                 budget_s=None, validate=None, text_keys=(), max_shrink=None):
         self.name = name
         self.oracle = oracle
         self.strategy = strategy          # callable(tier) -> hypothesis strategy
@@ -105,6 +105,7 @@ class Sub:
         self.budget_s = budget_s or {"quick": 100, "thorough": 1500}
         self.validate = validate          # callable(case) -> bool, guards the shrinker
         self.text_keys = tuple(text_keys)  # dict keys whose string values are free text (shrunk char-wise)
+        self.max_shrink = max_shrink      # cap on oracle evaluations spent shrinking one failure (None: tier default)
 
 
 class Recorder:
@@ -461,7 +462,7 @@ def run_property(mod, tier, seed, only_sub=None, jobs=16):
             lst.sort(key=lambda x: x[0])
             _, case, f = lst[0]
             try:
-                small, _ = shrink(s, case, sig, max_evals=max_evals, validate=getattr(s, "validate", None))
+                small, _ = shrink(s, case, sig, max_evals=(max_evals if s.max_shrink is None else s.max_shrink), validate=getattr(s, "validate", None))
                 fs = [x for x in safe_oracle(s, small) if x.sig == sig]
                 if fs:
                     case, f = small, dict(fs[0])
